@@ -247,7 +247,9 @@ func pickMesh(c *hlib.Ctx, maxTris int) gmesh {
 
 func pickMesh1(c *hlib.Ctx) gmesh {
 	org := model3d.XYZ(dy(c, 2, 2), dy(c, 2, 2), dy(c, 2, 2))
-	switch c.Rng.Intn(13) {
+	switch c.Rng.Intn(14) {
+	case 13:
+		return spikedMesh(c)
 	case 0:
 		return gmesh{model3d.NewMeshIcosphere(org, 1, 1+c.Rng.Intn(4)), "icosphere", true}
 	case 1:
@@ -311,8 +313,14 @@ func pickMesh1(c *hlib.Ctx) gmesh {
 // pickDisc returns a chart of a generated mesh (a disc by construction of the real code, verified
 // by the `charts` kind) or an open patch.
 func pickDisc(c *hlib.Ctx, maxTris int) (*model3d.Mesh, string) {
-	for tries := 0; tries < 50; tries++ {
+	for tries := 0; tries < 80; tries++ {
 		g := pickMesh(c, 600)
+		if strings.Contains(g.label, "spiked") {
+			// charts with a scale ratio of 1e3 and more inside one disc: the exact parameterisation has
+			// UV triangles below the resolution of the iterative solver (MSE 1e-16), whose orientation in
+			// the float output is noise; BuildAutomaticUVMap detects and splits them (atlas kind)
+			continue
+		}
 		var discs []*model3d.Mesh
 		st := watchdog(func() {
 			if c.Rng.Intn(2) == 0 {
